@@ -5,6 +5,7 @@ handler program x mode) vectors, each followed by a sentinel request; C: one rea
 per vector (TCP client / server, WebSocket, received, library-negotiated with binding), the
 parsed output must be one of the acceptable outputs."""
 import json
+from concurrent.futures import ThreadPoolExecutor
 
 import verif
 import servecommon as sc
@@ -27,15 +28,38 @@ def run(ctx):
         ctx.log("replayed 1 case: %d mismatches" % summ["mismatches"])
         return
 
-    mc1 = ctx.model_check("MCServeLoop", sc.c07_mc_cfg("C7ItemsMC"), sc.C07_INVS, workers=4, timeout=600, name="MCServeLoop_c07")
-    mc2 = ctx.model_check("MCServeLoop", sc.c07_mc_cfg("C7ItemsSeq", length=2), sc.C07_INVS, workers=4, timeout=600,
-                          name="MCServeLoop_c07seq")
-    # non-vacuity: the code-like deviation (default reply decided from the start element as the handler left it) must
-    # break the reply rule
-    dv = ctx.tlc("MCServeLoop", sc.c07_mc_cfg("C7ItemsMC", dev='{"StartAfterHandler"}'), workers=4, timeout=600, name="MCServeLoop_c07dev")
+    # growth family: the library's own IQ handlers and responders (roster / blocklist pushes, ping, version, time, disco info,
+    # bits of binary) answer every request exactly once - also requests whose payload they cannot decode - and apply pushes of
+    # the account itself only (Push.tla; stand-alone as bin/check XPUSH).  Runs beside the other parts.
+    import pushcommon
+    bg = ThreadPoolExecutor(max_workers=1)
+    pushf = bg.submit(pushcommon.run_part, ctx)
+    try:
+        main_part(ctx, quick, out, pushf)
+    finally:
+        bg.shutdown(wait=True)
+
+
+def main_part(ctx, quick, out, pushf):
+    # design checks (and the two non-vacuity runs) beside the emission of the vectors
+    ex = ThreadPoolExecutor(max_workers=4)
+    jvm = sc.EMIT_JVM
+    f1 = ex.submit(ctx.model_check, "MCServeLoop", sc.c07_mc_cfg("C7ItemsMC"), sc.C07_INVS, workers=3, timeout=900, name="MCServeLoop_c07", heap=jvm)
+    f2 = ex.submit(ctx.model_check, "MCServeLoop", sc.c07_mc_cfg("C7ItemsSeq", length=2), sc.C07_INVS, workers=3, timeout=900,
+                   name="MCServeLoop_c07seq", heap=jvm)
+    # non-vacuity: the code-like deviations must break the reply rule: the default reply decided from the start element as the
+    # handler left it; an error of the HANDLER for which errors.Is(err, io.EOF) holds taken for the end of the input stream
+    fd = ex.submit(ctx.tlc, "MCServeLoop", sc.c07_mc_cfg("C7ItemsMC", dev='{"StartAfterHandler"}'), workers=2, timeout=900, name="MCServeLoop_c07dev", heap=jvm)
+    fd2 = ex.submit(ctx.tlc, "MCServeLoop", sc.c07_mc_cfg("C7ItemsMC", dev='{"EOFLikeEndsServe"}'), workers=2, timeout=900, name="MCServeLoop_c07dev2", heap=jvm)
+    try:
+        res = sc.emit_parallel(ctx, "EmitServeLoop", sc.serve_emit_cfgs(ctx, "c07", 4 if quick else 6))
+    finally:
+        ex.shutdown(wait=True)
+    mc1, mc2, dv, dv2 = f1.result(), f2.result(), fd.result(), fd2.result()
     if not dv.violated:
         raise verif.Undecided("design self-test: deviation StartAfterHandler violates no invariant of the reply rule:\n" + dv.out[-1500:])
-    res = sc.emit_parallel(ctx, "EmitServeLoop", sc.serve_emit_cfgs(ctx, "c07", 4 if quick else 6))
+    if not ({"C07_ExactlyOne", "C07_IsReplies"} & set(dv2.violated)):      # whichever a TLC worker reaches first
+        raise verif.Undecided("design self-test: deviation EOFLikeEndsServe does not violate C07_ExactlyOne:\n" + dv2.out[-1500:])
     vecs = sc.collect(res, r"c07_vectors_\d+\.ndjson")
     nvec = sum(1 for f in vecs for _ in open(f))
     ctx.log("TLC emitted %d vectors" % nvec)
@@ -69,11 +93,7 @@ def run(ctx):
                 json.dumps(cmeta[t])[:300], json.dumps(ev[0] if ev else None)[:200]),
                 {"family": "correlate", "scenario": cmeta[t]["scenario"], "choices": cmeta[t]["choices"], "trace": trs[t], "rejected_line": hw})
     ctx.notes.append("id-collision scenarios (scheduler + Correlate.tla): %d schedules, %d traces, %d rejected" % (csumm["evaluations"], csumm["traces"], len(crej)))
-    # growth family: the library's own IQ handlers and responders (roster / blocklist pushes, ping, version,
-    # time, disco info) answer every request exactly once and apply pushes of the account itself only
-    # (Push.tla; stand-alone as bin/check XPUSH)
-    import pushcommon
-    push = pushcommon.run_part(ctx)
+    push = pushf.result()
     ctx.write_evidence("model_checking", {
         "push_handlers": push,
         "states": mc1.distinct + mc2.distinct, "transitions": mc1.generated + mc2.generated,
@@ -83,13 +103,15 @@ def run(ctx):
         "sessions_ended_with_error": summ["terminated_with_error"],
         "stream_error_elements_on_wire": summ["stream_error_elements_on_wire"],
         "binding_selftest_corruptions_rejected": nself,
-        "deviation_caught": "StartAfterHandler -> " + ", ".join(dv.violated),
+        "deviation_caught": "StartAfterHandler -> " + ", ".join(dv.violated) + "; EOFLikeEndsServe -> " + ", ".join(dv2.violated),
         "exhaustive": ("quick: every (iq type, id, handler writes, return(3: ok, error, stanza error), mode) x 30 derived combinations with every mutation of the start element(6) 5 times: every (session kind(6: "
                        "initiated c2s / s2s, WebSocket, received c2s / s2s, library-negotiated c2s with binding), from(5: none, own bare, "
                        "own full, other entity, server)) pair x rotating (to(3), namespace(own / the other stanza namespace), payload(4), "
-                       "read(4)) + other stanzas on every session kind" if quick else
+                       "read(4)) + other stanzas on every session kind + every (iq type, id, handler writes, mode) x error VALUE the handler returns (6: io.EOF itself, an error "
+                       "wrapping io.EOF, io.ErrUnexpectedEOF, a wrapped stanza error, a stream error value bare / wrapped) x 4 derived combinations" if quick else
                        "full product iq type(6) x id(4) x payload(4) x read(4) x writes(12) x return(3) x mode(3) x 15 derived (with rotating mutation of the start element(6)) "
-                       "(session kind(6), from(5), to(3), namespace(2)) combinations + other stanzas on every session kind"),
+                       "(session kind(6), from(5), to(3), namespace(2)) combinations + other stanzas on every session kind + the full product with the 6 sentinel-like / wrapped error "
+                       "values a handler may return x 2 derived combinations"),
         "rule": "every vector is one real session: negotiation, element under test, sentinel request, closing tag (WebSocket: end of "
                 "transport); distinct = (session kind, element kind, type, mode, number of output elements, error) classes; "
                 "non-trivial = something was written",
